@@ -25,7 +25,8 @@ RULE = ("scenario = (target kind: size+sha256+blake2b+sha512 | size only | no ch
         "liveness: an executed invocation left a verifying file => a path is returned; partial prefix files are unchanged "
         "when the next (resume) command starts and at exit; fetch does not stop on a missing/partial file while attempts and "
         "URIs remain). NON-TRIVIAL = at least one invocation ran and left a file for the fetcher to judge; distinct = "
-        "(configuration, consumed outcome prefix).")
+        "(configuration, consumed outcome prefix). Strata are run in priority order (A all target kinds without a pre-existing file, "
+        "[thorough: n=4 fully checksummed], C URI count != attempts, D no resume command, B pre-existing files, [thorough: n=4 rest]).")
 ASSUMPTIONS = [
     "the fetch program is sequential and deterministic: the outcome of invocation i depends only on the script, the command kind and the file on disk",
     "targets without any checksum: only an exit-0 invocation that leaves a non-empty file counts as having fetched (pkgcore documents and "
@@ -34,12 +35,21 @@ ASSUMPTIONS = [
     "running out of URIs ends the allowed attempts: sequence length = min(attempts, number of URIs)",
     "file contents are short ASCII strings (bash variables); hashing is done by hashlib in the harness, never by pkgcore/snakeoil",
     "userpriv=False (the sandbox runs as root without a portage user)",
+    "where snakeoil's fork-based spawn_bash costs more than 0.15 s per call (loaded sandbox), pkgcore.fetch.custom.spawn_bash is "
+    "bound to a vfork-based stand-in (same `bash --norc --noprofile -c <command>`, env and umask, exit status returned) for the bulk "
+    "of the enumeration; the fully checksummed n=1 stratum and every pinned witness always run through the real spawn_bash "
+    "(counters spawn:real / spawn:vfork-stand-in)",
+    "each shard stops starting new work after its own wall budget (80 s quick, 780 s thorough); what was not run is visible as "
+    "sequences_covered < sequences_in_bound, never as a verdict",
 ]
 SHARDS = {"quick": 4, "thorough": 16}
 TIMEOUT = {"quick": 300, "thorough": 2400}   # the sandbox is shared; normal wall is far below
 MIN_EVALS = 150
 REQUIRED_COUNTERS = ("fetch_calls", "script_invocations", "spawn:real", "returned_path", "raised", "resume_judged", "kind:resume", "kind:fetch")
 
+# own wall budget per shard: stay near 1 / 15 minutes even when every bash start costs 0.3 s on a loaded host
+# (normal cost of the whole enumeration: quick ~15 s, thorough ~2 min per shard); what was not run is reported
+WALL_BUDGET = {"quick": 80.0, "thorough": 780.0}
 FILENAME = "c36-distfile-1.0.tar.gz"
 
 
@@ -237,7 +247,7 @@ def run(ctx):
     if ctx.shard == 0:
         ctx.count("sequences_in_bound", gen.total_sequences(cfgs))
     stopped = False
-    wall_budget = ctx.budget(80.0, 780.0)   # stay near 1 / 15 minutes even when every bash start costs 0.3 s
+    wall_budget = WALL_BUDGET[ctx.tier]
     t_start = time.monotonic()
 
     def late(reserve):
@@ -264,7 +274,8 @@ def run(ctx):
                 break
         ctx.count("units_complete" if complete else "units_cut_short")
     if stopped:
-        ctx.note("soft deadline / quick-tier wall budget reached: part of the enumeration was not run (see units_not_started / units_cut_short)")
+        ctx.note("soft deadline / per-shard wall budget reached: part of the enumeration was not run (compare sequences_covered with "
+                 "sequences_in_bound; units_not_started / units_cut_short / shards_enumeration_complete)")
     elif ctx.quick:
         # sample of the longer sequences (the thorough tier enumerates them)
         rng = ctx.rng
